@@ -91,6 +91,33 @@ func JSONMethods(c *core.Ctx) {
 			k := 0
 			for _, b := range g.Blocks {
 				for i, nd := range b.Nodes {
+					// &r.field / r handed to a decoder writes the target before the outcome is known
+					if nodeContains(nd, false, func(x ast.Node) bool {
+						call, ok := x.(*ast.CallExpr)
+						if !ok {
+							return false
+						}
+						callee := calleeOf(info, call)
+						if callee == nil || callee.Pkg() == nil || callee.Pkg().Path() != "encoding/json" {
+							return false
+						}
+						for _, a := range call.Args {
+							a = ast.Unparen(a)
+							if u, ok := a.(*ast.UnaryExpr); ok && u.Op == token.AND {
+								if sel, ok := ast.Unparen(u.X).(*ast.SelectorExpr); ok && objOf(info, sel.X) == recv {
+									return true
+								}
+							}
+							if objOf(info, a) == recv {
+								return true
+							}
+						}
+						return false
+					}) {
+						k++
+						c.Add("R-UNCHANGED", name+"/store#"+itoa(k), nd.Pos(), core.Violated, "the decoder is handed the target itself (the receiver or the address of one of its fields): a decode that fails part-way has already modified the target, and encoding/json merges into an existing value instead of replacing it")
+						continue
+					}
 					as, ok := nd.(*ast.AssignStmt)
 					if !ok {
 						continue
